@@ -43,7 +43,8 @@ def required_cells(tier):
             "controls:stacked": 1, "transform:one-sided": 2,
             "history:tensor-replaced": 2, "feed:buffer": 3,
             "feed:fortran": 3, "env:time-dependent": 3, "gauge": 10,
-            "gauge:bond-dimension-1": 3, "bond-dimension-1": 5}
+            "gauge:bond-dimension-1": 3, "bond-dimension-1": 5,
+            "record_all:False": 10}
 
 
 def cases(tier, seed):
@@ -235,6 +236,24 @@ def run_ancilla(case):
             violations.append({"what": "time axis wrong",
                                "mechanism": "times",
                                "detail": {"times": list(dyn.times)}})
+    # only the final state requested: the same final state (every control,
+    # pre and post, acts whether or not intermediate states are recorded)
+    if not violations and via is None and i % 6 in (1, 2):
+        dynf = oqupy.compute_dynamics(sysd["oq"], rho0,
+                                      **dict(kw, record_all=False))
+        sf = np.array(dynf.states)
+        ef = float(np.abs(sf[-1] - ref[-1]).max()) if sf.shape[0] == 1 \
+            else float("inf")
+        err = max(err, ef if np.isfinite(ef) else 1.0)
+        cells.append("record_all:False")
+        if not ef <= tol:
+            violations.append({
+                "what": f"record_all=False: {sf.shape[0]} state(s) returned, "
+                        f"the final one differs from the dense joint "
+                        f"evolution by {ef:.3e}",
+                "mechanism": "dense-deviation", "detail": {
+                    "controls": [{k2: v for k2, v in c.items()}
+                                 for c in cdesc]}})
     # history: tensors of a process tensor that was already contracted are
     # replaced through set_mpo_tensor and the object is contracted again
     if nenv and via is None and not violations and i % 3 == 0 \
